@@ -249,6 +249,34 @@ Proof.
     unfold conserve in *. split; [lia | simpl; rewrite Hlen; reflexivity].
 Qed.
 
+(** exact books of a block: the sum changes by the grants minus a loss between 0 and (n-1) per
+    transaction *)
+Theorem block_accounting dom e : admins e <> [] -> NoDup dom ->
+  forall ts b b' oks g, covers dom e ts ->
+  apply_block fcfg_fixed e b ts = (b', oks, g) ->
+  exists loss, 0 <= loss <= (Z.of_nat (length (admins e)) - 1) * Z.of_nat (length ts) /\
+               sumb dom b' = sumb dom b + g - loss.
+Proof.
+  intros Ha Hnd ts. induction ts as [|t r IH]; intros b b' oks g [Hadm Hcov]; simpl apply_block.
+  - intro H; inversion H; subst. exists 0. simpl. split; lia.
+  - destruct (apply_ntx fcfg_fixed e b t) as [[b1 ok] g1] eqn:E1.
+    destruct (apply_block fcfg_fixed e b1 r) as [[b2 oks2] g2] eqn:E2.
+    intro H; inversion H; subst; clear H.
+    destruct (apply_ntx_accounting dom e b t b1 ok g1 Ha Hnd Hadm (Hcov t (or_introl eq_refl)) E1) as [l1 [Hl1 Hs1]].
+    destruct (IH b1 b' oks2 g2) as [l2 [Hl2 Hs2]]; [split; [exact Hadm | intros t' Ht'; apply Hcov; right; exact Ht'] | exact E2 |].
+    exists (l1 + l2). split; [|lia].
+    change (length (t :: r)) with (S (length r)). rewrite Nat2Z.inj_succ. nia.
+Qed.
+
+Corollary block_loss_bound dom e : admins e <> [] -> NoDup dom ->
+  forall ts b b' oks g, covers dom e ts ->
+  apply_block fcfg_fixed e b ts = (b', oks, g) ->
+  loss_bound dom b b' g (length (admins e)) (length ts).
+Proof.
+  intros Ha Hnd ts b b' oks g Hc E. destruct (block_accounting dom e Ha Hnd ts b b' oks g Hc E) as [l [Hl Hs]].
+  unfold loss_bound. lia.
+Qed.
+
 Theorem block_nonneg e : env_ok e -> forall ts b b' oks g, nonneg b ->
   apply_block fcfg_fixed e b ts = (b', oks, g) -> nonneg b' /\ 0 <= g.
 Proof.
@@ -332,6 +360,9 @@ Proof. intro H. simpl. rewrite H. reflexivity. Qed.
 Lemma conserve_b_spec dom b b' g : conserve_b dom b b' g = true <-> conserve dom b b' g.
 Proof. unfold conserve_b, conserve. apply Z.leb_le. Qed.
 
+Lemma loss_b_spec dom b b' g n k : loss_b dom b b' g n k = true <-> loss_bound dom b b' g n k.
+Proof. unfold loss_b, loss_bound. apply Z.leb_le. Qed.
+
 Lemma nonneg_b_spec dom b : nonneg_b dom b = true <-> nonneg_on dom b.
 Proof.
   unfold nonneg_b, nonneg_on. rewrite forallb_forall. split; intros H a Ha; specialize (H a Ha); lia.
@@ -355,3 +386,19 @@ Theorem neg_amount_refuted :
     oks = [true] /\ b' 1%N = 1030 /\ b' 2%N = -30 /\
     nonneg_b [1%N; 2%N; 100%N; 101%N; 102%N] b' = false.
 Proof. eexists; eexists; eexists. split; [reflexivity | vm_compute; repeat split; reflexivity]. Qed.
+
+(** the whole-balance fallback of a sender who is an admin: with the account emptied FIRST the loss
+    is the rounding loss; emptied LAST (expected refutation of that order) the sender's own share is lost *)
+Definition env4 : fenv := {| admins := [100%N; 101%N; 102%N; 103%N]; price := 50000; genesis_bal := 1000 |}.
+Definition b_drained : bals := of_alist [(100%N, 1000); (101%N, 788500003); (102%N, 1000); (103%N, 1000)].
+
+Theorem fallback_admin_sender :
+  loss_b [100%N; 101%N; 102%N; 103%N] b_drained (pay_left env4 b_drained 101%N) 0 4 1 = true /\
+  pay_left env4 b_drained 101%N 101%N = 197125000.
+Proof. split; vm_compute; reflexivity. Qed.
+
+Theorem zero_last_refuted :
+  loss_b [100%N; 101%N; 102%N; 103%N] b_drained (pay_left_zero_last env4 b_drained 101%N) 0 4 1 = false /\
+  pay_left_zero_last env4 b_drained 101%N 101%N = 0 /\
+  conserve_b [100%N; 101%N; 102%N; 103%N] b_drained (pay_left_zero_last env4 b_drained 101%N) 0 = true.
+Proof. repeat split; vm_compute; reflexivity. Qed.
